@@ -131,6 +131,10 @@ def signature(exc, stage, text, tb_names):
             return "nul-byte-file-typeerror"
     if stage == "Preamble" and isinstance(exc, UnicodeDecodeError):
         return "non-utf8-file-unicodedecodeerror"
+    if stage in ("Compile", "PyCompile") and isinstance(exc, RecursionError) and len(text) >= 400:
+        # a syntax tree some hundred levels deep: a long chain of binary operators, attribute accesses,
+        # calls or elif clauses
+        return "long-chain-compile-recursionerror"
     if stage == "Compile" and msg.startswith('AssertionError: Scenic AST node "') and "needs visitor in compiler" in msg:
         return "temporal-in-ifexp-assertion"
     if stage == "PyCompile":
@@ -139,6 +143,8 @@ def signature(exc, stage, text, tb_names):
             return "behavior-annassign-crash"
         if msg.startswith("TypeError: got an invalid type in Constant: list") and re.search(r"require\s+monitor\b.*\bas\b", text):
             return "require-monitor-as-typeerror"
+        if msg.startswith("TypeError: expected some sort of expr, but got <scenic.syntax.ast.") and re.search(r"\breturn\b", text) and "interrupt" in text:
+            return "return-scenic-in-interrupt-typeerror"
         if msg.startswith("ValueError: Try has orelse but no except handlers"):
             return "try-interrupt-else-valueerror"
         if msg.startswith(('TypeError: Tuple field "elts" must be a list', 'TypeError: List field "elts" must be a list',
@@ -555,6 +561,18 @@ TARGETED = {
     "tg-unterminated-string": "x = 'abc\nego = new Object\n",
     "tg-unterminated-triple": "x = '''abc\nego = new Object\n",
     "tg-unterminated-fstring": "x = f'{a\nego = new Object\n",
+    "tg-long-chain-300": "x = " + "+".join(["1"] * 300) + "\nego = new Object\n",
+    "tg-long-chain-3000": "x = " + " + ".join(["1"] * 3000) + "\nego = new Object\n",
+    "tg-long-chain-str": "x = " + " + ".join(["'a'"] * 400) + "\nego = new Object\n",
+    "tg-long-and-chain": "x = " + " and ".join(["aa"] * 600) + "\n",
+    "tg-long-compare-chain": "x = " + " < ".join(["1"] * 600) + "\n",
+    "tg-long-attr-chain": "x = aa" + ".bb" * 400 + "\n",
+    "tg-long-call-chain": "x = ff" + "()" * 400 + "\n",
+    "tg-long-list": "x = [" + ", ".join(["1"] * 400) + "]\nego = new Object\n",
+    "tg-long-elif": "if aa:\n    pass\n" + "elif aa:\n    pass\n" * 300,
+    "tg-return-scenic-interrupt": "behavior B():\n    try:\n        return 5 deg\n    interrupt when cc0:\n        return (distance from oo0 to oo1)\nego = new Object\n",
+    "tg-formfeed-debug": "ss0 = \"a\x0cb\"\nyy0 = f\"{ss0=}\"\nego = new Object\n",
+    "tg-linesep-debug": "ss0 = \"a\u2028b\\x1cc\x85d\"\nyy0 = f\"{ss0 = }\"\nzz0 = (1 +\n  2 3)\n",
     "tg-dedent-mismatch": "behavior B():\n        wait\n    wait\n",
 }
 
@@ -956,6 +974,94 @@ def check_formula(item):
 # --------------------------------------------------------------------------- main
 
 
+# ---- every statement kind in every context (all 25 context-restricted statements and the others):
+# each combination must compile or be refused with a located Scenic error
+MATRIX_STATEMENTS = {
+    "try-interrupt": "try:\n    wait\ninterrupt when cc0:\n    wait",
+    "behavior-def": "behavior Bx0():\n    wait",
+    "monitor-def": "monitor Mx0():\n    wait",
+    "scenario-def": "scenario Sx0():\n    setup:\n        ego = new Object",
+    "model": "model c10_model",
+    "mutate": "mutate",
+    "mutate-by": "mutate oo0, oo1 by 2",
+    "param": "param pq0 = 1, pq1 = 2",
+    "take": "take ac0",
+    "wait": "wait",
+    "wait-for": "wait for 2 steps",
+    "wait-until": "wait until cc0",
+    "terminate": "terminate",
+    "terminate-simulation": "terminate simulation",
+    "do": "do Bh0()",
+    "do-for": "do Bh0() for 2 seconds",
+    "do-until": "do Bh0() until cc0",
+    "do-choose": "do choose Bh0(), Bh1()",
+    "do-shuffle": "do shuffle {Bh0(): 1, Bh1(): 2}",
+    "record": "record va0 as rn0",
+    "record-every": "record va0 every 2 steps after 1 seconds",
+    "record-initial": "record initial va0",
+    "record-final": "record final va0 as rn1",
+    "terminate-when": "terminate when cc0",
+    "terminate-simulation-when": "terminate simulation when cc0",
+    "terminate-after": "terminate after 5 steps",
+    "simulator": "simulator sm0",
+    "require": "require cc0",
+    "require-soft": "require[0.5] cc0 as rq0",
+    "require-temporal": "require always cc0 implies eventually cc1",
+    "require-monitor": "require monitor Mn0()",
+    "override": "override oo0 with foo 1",
+    "abort": "abort",
+    "new-object": "zz0 = new Object at (1, 2), facing 30 deg",
+    "ego-assign": "ego = new Object",
+    "workspace-assign": "workspace = Workspace(rg0)",
+    "class-def": "class Cx0:\n    pp0: 1",
+    "import": "import math",
+    "return": "return",
+    "return-value": "return va0 + 1",
+    "return-scenic": "return 5 deg",
+    "return-scenic-op": "return (distance from oo0 to oo1)",
+    "yield": "yield va0",
+    "break": "break",
+    "continue": "continue",
+    "global": "global gg0",
+    "python-def": "def fx0(a):\n    return a",
+    "python-with": "with open(va0) as fh0:\n    pass",
+}
+MATRIX_CONTEXTS = {
+    "top": "{S}\n",
+    "top-if": "if cc9:\n    {S}\n",
+    "top-loop": "for ii0 in range(2):\n    {S}\n",
+    "scenario-setup": "scenario Sq0():\n    setup:\n        {S}\n",
+    "scenario-short": "scenario Sq0():\n    {S}\n",
+    "scenario-compose": "scenario Sq0():\n    compose:\n        {S}\n",
+    "compose-loop": "scenario Sq0():\n    compose:\n        while cc9:\n            {S}\n            wait\n",
+    "behavior": "behavior Bq0():\n    {S}\n",
+    "behavior-loop": "behavior Bq0():\n    while cc9:\n        {S}\n        wait\n",
+    "monitor": "monitor Mq0():\n    {S}\n",
+    "try-body": "behavior Bq0():\n    try:\n        {S}\n    interrupt when cc9:\n        wait\n",
+    "interrupt-handler": "behavior Bq0():\n    try:\n        wait\n    interrupt when cc9:\n        {S}\n",
+    "interrupt-handler-loop": "behavior Bq0():\n    while cc8:\n        try:\n            wait\n        interrupt when cc9:\n            {S}\n",
+    "except-handler": "behavior Bq0():\n    try:\n        wait\n    interrupt when cc9:\n        wait\n    except Ex0:\n        {S}\n",
+    "compose-interrupt-handler": "scenario Sq0():\n    compose:\n        try:\n            wait\n        interrupt when cc9:\n            {S}\n",
+    "monitor-interrupt-handler": "monitor Mq0():\n    try:\n        wait\n    interrupt when cc9:\n        {S}\n",
+    "class-body": "class Cq0:\n    {S}\n",
+    "function": "def fq0():\n    {S}\n",
+    "function-in-behavior": "behavior Bq0():\n    def fq1():\n        {S}\n    wait\n",
+    "function-in-handler": "behavior Bq0():\n    try:\n        wait\n    interrupt when cc9:\n        def fq1():\n            {S}\n        wait\n",
+}
+
+
+def matrix_programs():
+    """(id, program) for every statement kind placed in every context."""
+    out = []
+    for cid, ctx in MATRIX_CONTEXTS.items():
+        line = [l for l in ctx.splitlines() if "{S}" in l][0]
+        indent = line[: len(line) - len(line.lstrip())]
+        for sid, stmt in MATRIX_STATEMENTS.items():
+            body = stmt.replace("\n", "\n" + indent)
+            out.append((f"mx-{sid}@{cid}", ctx.replace("{S}", body)))
+    return out
+
+
 FILE_BASES = {
     "fb-demo": "ego = new Object with blah 0\n\nbehavior Foo(n):\n    try:\n        take n\n    interrupt when self.blah > 3:\n        take 0\n\n"
                "class Box(Object):\n    width: 2\n\nscenario Sub():\n    setup:\n        other = new Object at 10@10\n",
@@ -1073,6 +1179,12 @@ def make_runs(tier):
                     pass
             runs.append((rid + "top", mtext, "top", opts))
     runs.extend(file_runs(tier, rnd))
+    for k, (mid, prog) in enumerate(matrix_programs()):
+        runs.append((f"{mid}|seed|direct", prog, "direct", {}))
+        if tier != "quick" or (k + seed()) % 3 == 0:
+            runs.append((f"{mid}|seed|top", prog, "top", {}))
+        if (k + seed()) % 7 == 0:
+            runs.append((f"{mid}|seed|file", prog, "file", {"bytes": prog.encode("utf-8")}))
     return runs, len(seeds)
 
 
